@@ -82,6 +82,8 @@ public:
         future_conv *_this = static_cast<future_conv *>(me);
         promise<To> p = std::move(_this->_prom);
         try {
+            //there is no value to convert, but the source future can carry an exception (or can be dropped)
+            _this->_fut.value();
             if constexpr(std::is_void_v<To>) {
                 (ctx->*fn)();
                 return p();
@@ -117,6 +119,8 @@ public:
         future_conv *_this = static_cast<future_conv *>(me);
         promise<To> p = std::move(_this->_prom);
         try {
+            //there is no value to convert, but the source future can carry an exception (or can be dropped)
+            _this->_fut.value();
             return (ctx->*fn)(p);
         } catch (...) {
             return p(std::current_exception());
